@@ -68,6 +68,30 @@ def run(ctx):
         if xa != xb:
             pfam.report(ctx, "dialect-not-honoured:" + d, {"kind": "input", "entry": "parse_statements", "dialect": d, "input": a, "plain": b, "observed": [xa[:300], xb[:300]],
                                                           "oracle": "c13: the dialect form must parse like the plain form at every nesting depth", "how_found": "stream nested"})
+    # … in every STATEMENT position that hands the dialect on to an expression parser (one host per call site of parser.py that passes `sql_type`), enumerated:
+    # a call site that passes another value (a default, a swapped positional argument) parses its operand with another dialect's operator sets
+    HOSTS = ["ALTER TABLE t ADD PARTITION (dt = {X})", "ALTER TABLE t ADD IF NOT EXISTS PARTITION (dt = {X})", "ALTER TABLE t DROP PARTITION (dt = {X})",
+             "ALTER TABLE t DROP IF EXISTS PARTITION (dt = '1', hr = {X})", "INSERT OVERWRITE TABLE t PARTITION (dt = {X}) SELECT a FROM u", "INSERT INTO t PARTITION (dt = {X}) VALUES (1)",
+             "INSERT INTO t VALUES (1, {X}), ({X}, 2)", "INSERT INTO t SELECT {X} FROM u", "WITH w AS (SELECT {X} AS a) INSERT INTO t SELECT a FROM w", "ANALYZE TABLE t PARTITION (dt = {X}) COMPUTE STATISTICS",
+             "CREATE TABLE t (a int DEFAULT {X})", "CREATE TABLE t (a int GENERATED ALWAYS AS ({X}) VIRTUAL)", "CREATE TABLE t (a int ON UPDATE {X})", "CREATE TABLE t (a DECIMAL({X}))",
+             "CREATE TABLE t AS SELECT {X} FROM u", "CREATE TABLE t (a int) PARTITIONED BY (b int DEFAULT {X})", "ALTER TABLE t ADD c int DEFAULT {X}", "ALTER TABLE t MODIFY c int DEFAULT {X}",
+             "ALTER TABLE t CHANGE c d int DEFAULT {X}", "UPDATE t SET a = {X}, b = {X} WHERE {X} > 0 ORDER BY {X} LIMIT 1", "WITH w AS (SELECT {X} AS a) UPDATE t SET a = 1 WHERE b = {X}",
+             "DELETE FROM t WHERE {X} > 0 ORDER BY {X} LIMIT 1", "SHOW COLUMNS FROM t WHERE {X} > 0", "SELECT a FROM t LATERAL VIEW explode({X}) v AS x",
+             "SELECT CAST({X} AS INT), EXTRACT(YEAR FROM {X}), a[{X}] FROM t", "SELECT SUM(a) OVER (PARTITION BY {X} ORDER BY {X} DESC) FROM t", "SELECT a FROM t GROUP BY {X}, b",
+             "SELECT a FROM t GROUP BY a GROUPING SETS (({X}), ({X}, a))", "SELECT a FROM t ORDER BY {X} DESC, b LIMIT 1", "SELECT a FROM t SORT BY {X}", "SELECT a FROM t DISTRIBUTE BY {X}",
+             "SELECT a FROM t CLUSTER BY {X}", "SELECT a FROM t JOIN u USING ({X})", "SELECT a FROM t LEFT JOIN u ON {X} > 0 JOIN v ON {X} > 1",
+             "SELECT a BETWEEN {X} AND {X}, a IN ({X}, 1), a LIKE {X}, a IS {X}, - {X}, a + {X} * 2 FROM t", "SELECT CASE {X} WHEN {X} THEN {X} ELSE {X} END, CASE WHEN {X} > 0 THEN {X} END FROM t",
+             "SELECT a FROM t WHERE a IN (SELECT {X} FROM u) AND EXISTS (SELECT 1 FROM v WHERE {X} > 0)", "SELECT a FROM (SELECT {X} AS a FROM u) q UNION ALL SELECT {X} FROM v",
+             "SELECT s.f({X}), g({X}, {X}), COUNT(DISTINCT {X}), IF({X}, {X}, {X}) FROM t", "SELECT a FROM t WHERE {X} > 0 GROUP BY a HAVING {X} > 0"]
+    PAIRS = {"HIVE": [("COALESCE(! a, 1)", "COALESCE(NOT a, 1)"), ("COALESCE(a == b, 1)", "COALESCE(a = b, 1)")], "DB2": [("COALESCE(CURRENT DATE, b)", "COALESCE(CURRENT_DATE, b)")]}
+    hp = [(d, h.replace("{X}", a), h.replace("{X}", b), h) for d in PAIRS for h in HOSTS for a, b in PAIRS[d]]
+    rha, _ = ctx.corr([pfam.req_parse(d, a) for d, a, _, _ in hp], stream="hosts-dialect-form")
+    rhb, _ = ctx.corr([pfam.req_parse(d, b) for d, _, b, _ in hp], stream="hosts-plain-form")
+    for (d, a, b, h), (_, xa, _), (_, xb, _) in zip(hp, rha, rhb):
+        ctx.count("hosts:%s:%s" % (d, "equal" if xa == xb and xa.startswith("OK") else "DIFFERENT" if xa != xb else "both-rejected"))
+        if xa != xb:
+            pfam.report(ctx, "dialect-not-honoured:" + d, {"kind": "input", "entry": "parse_statements", "dialect": d, "input": a, "plain": b, "observed": [xa[:300], xb[:300]], "host": h,
+                                                          "oracle": "c13: the dialect form must parse like the plain form in every statement position", "how_found": "stream hosts"})
     # … at EVERY recursive position of the grammar: tree-first Hive statements (every production) printed with NOT / =, rewritten to the Hive spellings
     from props import c09
     hive_texts = [t for _, t in pfam.tree_texts(ctx.rng.fork("hive-trees"), 500 if ctx.quick else 4000, ["HIVE"])]
